@@ -16,7 +16,8 @@ _LISTS = {}
 
 REPRESENTATIVES = ["a", "b", "xs...", "checkerlang_x", "checkerlang_secure_mode", "1", "2.5", "'s'",
                    "TRUE", "FALSE", "//a//", "//[//", "...", "=>", "<<", ">>", "<<<", ">>>", "<*",
-                   "*>", "(", ")", "[", "]", ",", ";", "0", "NULL", "_x"]
+                   "*>", "(", ")", "[", "]", ",", ";", "0", "NULL", "_x",
+                   "'('", "'['", "'->'", "'!>'", "'end'", "'='", "'do'", "';'"]
 TYPES = {"identifier", "keyword", "operator", "interpunction", "string", "int", "decimal",
          "boolean", "pattern"}
 
